@@ -108,17 +108,22 @@ func genClEntry(t *rapid.T, first bool) ClEntry {
 	body.WriteString(strings.Repeat("\n", rapid.SampledFrom([]int{1, 1, 1, 0, 2}).Draw(t, "blankAfterHeader")))
 	nl := rapid.IntRange(0, 10).Draw(t, "nlines")
 	for i := 0; i < nl; i++ {
-		switch rapid.IntRange(0, 9).Draw(t, "lk") {
+		// the change text is verbatim: blanks at the end of a line and lines of nothing but blanks
+		// are part of it
+		tr := rapid.SampledFrom([]string{"", "", "", "", " ", "  ", "\t"}).Draw(t, "ltrail")
+		switch rapid.IntRange(0, 10).Draw(t, "lk") {
+		case 10:
+			body.WriteString(rapid.SampledFrom([]string{" ", "  ", "   ", " \t"}).Draw(t, "wsline") + "\n")
 		case 0:
 			body.WriteString("\n")
 		case 1:
 			body.WriteString("  [ " + strings.Fields(rapid.SampledFrom(personNames).Draw(t, "sect"))[0] + " ]\n")
 		case 2, 3:
-			body.WriteString("    " + genLineText(t, "cont", false) + "\n")
+			body.WriteString("    " + genLineText(t, "cont", false) + tr + "\n")
 		case 4:
 			body.WriteString("  * Closes: #" + itoa(rapid.IntRange(1, 999999).Draw(t, "bug")) + " -- really; urgency=none (1.0)\n")
 		default:
-			body.WriteString("  * " + genLineText(t, "item", false) + "\n")
+			body.WriteString("  * " + genLineText(t, "item", false) + tr + "\n")
 		}
 	}
 	body.WriteString(strings.Repeat("\n", rapid.SampledFrom([]int{1, 1, 1, 0, 2}).Draw(t, "blankBeforeTrailer")))
@@ -211,7 +216,7 @@ func entriesMatch(got changelog.ChangelogEntries, want []ClEntry) error {
 
 var specC17Model = Register(&Spec[ClDoc]{
 	Prop: "C17", Name: "model",
-	Rule: "changelogs rendered from an entry-list model: 1..6 entries; source [a-z0-9][a-z0-9+.-]+, Policy-grammar version, 1..3 distributions, 1..3 key=value options, body of blank lines after the header, '  * item', deeper continuation, '  [ Name ]', blank lines and lines containing ' -- ', ';', '(' in the middle, blank lines before the trailer; maintainer 'Name <mail>'; timestamp from a generated instant and zone offset (-12:00..+14:00 incl. half/quarter hours and +00:01) rendered like date -R, or with the day's leading zero left out or replaced by a blank (Policy allows a day 32); 0..3 blank lines between entries, in 1/6 of the cases carrying blanks or a tab (dpkg reads ^\\s*$ as blank); final newline present or absent; trailing blank lines. Oracle: changelog.Parse returns one entry per block in order with Source, Version (parts), Target (distributions joined by one blank), Arguments, Changelog == exact bytes between header and trailer line, ChangedBy, When equal as instant AND zone offset; ParseOne returns the first; parsing the same text again right after three failing parses (document cut inside a body, trailer without date) gives the same entries. Non-trivial: >= 2 entries, >= 2 options, or no final newline; distinct by text.",
+	Rule: "changelogs rendered from an entry-list model: 1..6 entries; source [a-z0-9][a-z0-9+.-]+, Policy-grammar version, 1..3 distributions, 1..3 key=value options, body of blank lines after the header, '  * item', deeper continuation, '  [ Name ]', blank lines, lines of blanks only, lines ending in blanks or a tab, and lines containing ' -- ', ';', '(' in the middle, blank lines before the trailer; maintainer 'Name <mail>'; timestamp from a generated instant and zone offset (-12:00..+14:00 incl. half/quarter hours and +00:01) rendered like date -R, or with the day's leading zero left out or replaced by a blank (Policy allows a day 32); 0..3 blank lines between entries, in 1/6 of the cases carrying blanks or a tab (dpkg reads ^\\s*$ as blank); final newline present or absent; trailing blank lines. Oracle: changelog.Parse returns one entry per block in order with Source, Version (parts), Target (distributions joined by one blank), Arguments, Changelog == exact bytes between header and trailer line, ChangedBy, When equal as instant AND zone offset; ParseOne returns the first; parsing the same text again right after three failing parses (document cut inside a body, trailer without date) gives the same entries. Non-trivial: >= 2 entries, >= 2 options, or no final newline; distinct by text.",
 	Check: func(d ClDoc, r *Recorder) error {
 		text := renderClDoc(d)
 		nt := len(d.Entries) >= 2 || !d.FinalNewline
